@@ -463,6 +463,11 @@ func c01RunTemplate(ti int, values bool, stack bool) {
 	if stack && r.stage == "ok" {
 		verifrt.Assert(r.finalSP == 0, t.name+":finished-evaluation-leaves-exactly-its-result")
 	}
+	// an operand popped too many (or left over and consumed later) shows as a
+	// run-time failure of a program that has a value
+	if stack && want.val.kind != 2 && want.val.kind != 3 {
+		verifrt.Assert(r.stage != "run", t.name+":program-with-a-value-does-not-fail-at-run-time")
+	}
 }
 
 // HarnessC01Templates runs the whole template family in both tiers.
